@@ -125,12 +125,12 @@ def verdict(text: SymText, pos=0):
         consider("INT_CONST_CHAR", pat("INT_CONST_CHAR").all_ends(text, pos))
         if best[1] is None:
             return ("error", "bad character constant")
-        return ("token", best[1], best[0])
+        return ("token", best[1], best[0], None)
     if text.startswith('"', pos):
         consider("STRING_LITERAL", pat("STRING_LITERAL").all_ends(text, pos))
         if best[1] is None:
             return ("error", "bad string literal")
-        return ("token", best[1], best[0])
+        return ("token", best[1], best[0], None)
     # order matters only for ties (same end): octal before decimal for "0", none else can tie
     for kind in ("INT_CONST_OCT", "INT_CONST_DEC", "INT_CONST_HEX", "INT_CONST_BIN", "FLOAT_CONST", "HEX_FLOAT_CONST"):
         consider(kind, pat(kind).all_ends(text, pos))
@@ -153,8 +153,8 @@ def verdict(text: SymText, pos=0):
         kw = sym_get(KEYWORDS, text[pos:end], None)
         kind = kw if kw is not None else "ID"
     elif kind.startswith("P:"):
-        kind = PUNCT[kind[2:]]
-    return ("token", kind, end)
+        return ("token", PUNCT[kind[2:]], end, kind[2:])
+    return ("token", kind, end, None)
 
 
 # ---- typing of constants by spelling (6.4.4.1p5, 6.4.4.2p4, 6.4.4.4p10)
